@@ -9,6 +9,7 @@ import (
 	"net/url"
 	"runtime"
 	"runtime/debug"
+	"strings"
 	"testing"
 
 	"github.com/tigerwill90/fox"
@@ -92,6 +93,8 @@ func pools(quick bool) []poolDef {
 		always: []string{"/{p0}", "/*{c0}", "/a/{p1}", "/a/*{c1}", "/a/b/{p2}", "/a/b/*{c2}"}})
 	// dots: request paths with '.' and '..' segments captured by wildcards (not canonical, yet routed as they are)
 	ps = append(ps, poolDef{name: "dots", patterns: []string{"/{p0}/{p1}/", "/*{c0}/", "/a/{p1}/", "/{p0}/a", "/a/*{c1}/b/", "/{p0}/{p1}"}, paths: gen.Paths([]string{"a", ".", "..", "b"}, 3), hosts: []string{""}, k: 2})
+	// escaped: request targets whose escaped form differs from the decoded one (RawPath set)
+	ps = append(ps, poolDef{name: "escaped", patterns: []string{"/{p0}", "/{p0}/{p1}", "/*{c0}", "/a/{p1}/", "/{p0}/a"}, paths: gen.Paths([]string{"a", "a%2Fb", "%41", "a%3Bb"}, 2), hosts: []string{""}, k: 2})
 	return ps
 }
 
@@ -132,6 +135,12 @@ func build(set []spec, hosts, paths []string) (*fox.Router, []served, error) {
 				continue
 			}
 			rq := &http.Request{Method: "GET", Host: h, URL: &url.URL{Path: p}, Header: http.Header{}}
+			if strings.Contains(p, "%") {
+				// an escaped request target: the router matches on RawPath
+				if dec, err := url.PathUnescape(p); err == nil {
+					rq.URL.Path, rq.URL.RawPath = dec, p
+				}
+			}
 			// only requests the implementation really serves with a route handler are measured (whether it
 			// should serve them is C01/C08's business)
 			ran = false
